@@ -152,13 +152,31 @@ def rule_cache(ctx, F):
     terms = [b.term_of_operand(o) for o in ops]
     n_digest = sum(1 for t in terms if any(s[0] == "call" and (s[1] or "").endswith("DigestBuilder::finish") for s in walk(t)))
     has_sd = any(any(s[0] in ("local", "phi") and b.var_name(s[1]) == "signed_data" for s in walk(t)) or "signed_data" in names_in_term(b, t) for t in terms)
+    def composed_types(cb, cops):
+        """record-data types a closure composes canonically; a generic parameter of an (inlined) helper is resolved
+        through the captured value's type in the creator"""
+        out = set()
+        for _, t in cb.calls():
+            if not ((t["fn"] or "").endswith("ComposeRecordData::compose_canonical_rdata") and t["targs"]):
+                continue
+            ty = t["targs"][0]
+            if "::" not in ty:
+                k = None
+                for s in walk(cb.term_of_operand(t["args"][0])):
+                    if s[0] == "field" and strip(s[1]) == ("arg", 1) and isinstance(s[2], int):
+                        k = s[2]
+                if k is not None and k < len(cops) and cops[k][0] in ("c", "m") and len(cops[k][1]) == 1:
+                    pt = b.locals[cops[k][1][0]]
+                    while isinstance(pt, str) and pt.startswith("&"):
+                        pt = re.sub(r"^&(mut )?", "", pt)
+                    if isinstance(pt, str):
+                        ty = pt
+            out.add(ty.split("<")[0].split("::")[-1])
+        return out
     # which record data are hashed (closures calling compose_canonical_rdata)
     hashed = set()
-    for p, cb in F.bodies.items():
-        if cb.root and p.startswith(b.path.rsplit("::{closure", 1)[0]) and "check_sig_cached" in p:
-            for _, t in cb.calls():
-                if (t["fn"] or "").endswith("ComposeRecordData::compose_canonical_rdata") and t["targs"]:
-                    hashed.add(t["targs"][0].split("<")[0].split("::")[-1])
+    for _bi, cb, cops in closures_created_in(F, b):
+        hashed |= composed_types(cb, cops)
     # provenance: which buffer does each digest read, and what was composed into that buffer
     def buf_id(term):
         for s in walk(term):
@@ -169,8 +187,7 @@ def rule_cache(ctx, F):
         return None
     composed = {}   # buffer id -> record types composed into it
     for bi, cb, cops in closures_created_in(F, b):
-        types = {t["targs"][0].split("<")[0].split("::")[-1] for _, t in cb.calls()
-                 if (t["fn"] or "").endswith("ComposeRecordData::compose_canonical_rdata") and t["targs"]}
+        types = composed_types(cb, cops)
         if not types:
             continue
         for o in cops:
